@@ -329,9 +329,23 @@ pub fn gen_pipe_case(rng: &mut Rng, p: &Profile) -> PipeCase {
             4..=7 => rng.range(1, 60.min(p.max_items)),
             _ => rng.range(1, p.max_items),
         };
+        // a share of the chromosomes carries its data at very large coordinates
+        let base: u32 = if p.huge && rng.chance(1, 12) {
+            *rng.pick(&[2_147_483_600u32, 2_147_483_648, 3_000_000_000, 3_999_700_000])
+        } else {
+            0
+        };
         let items = match kind {
-            Kind::Wig => gen_wig_items(rng, n, res, zero_len, 0),
-            Kind::Bed => gen_bed_items(rng, n, res, zero_len, p.long_first, zero_zero),
+            Kind::Wig => gen_wig_items(rng, n, res, zero_len, base),
+            Kind::Bed => {
+                let mut v = gen_bed_items(rng, n, res, zero_len, p.long_first, zero_zero && base == 0);
+                for it in &mut v {
+                    let len = it.e - it.s;
+                    it.s = it.s.saturating_add(base).min(4_000_000_000);
+                    it.e = it.s.saturating_add(len).min(4_000_000_000);
+                }
+                v
+            }
         };
         if items.is_empty() {
             continue;
